@@ -16,9 +16,9 @@ import os
 import re
 
 from translate import TranslateError, strip_comments, matching
-from translate_ctrl import parse_methods, parse_block, tokenize, P, indent, squash, LOG_MACROS
+from translate_ctrl import parse_methods, parse_block, tokenize, P, indent, squash, LOG_MACROS, check_log_macro
 
-LEAN_TY = {"u8": "UInt8", "u16": "UInt16", "nat": "Nat", "bool": "Bool", "bytes": "List UInt8", "page": "Page", "unit": "Unit"}
+LEAN_TY = {"u8": "UInt8", "u16": "UInt16", "nat": "Nat", "u32": "Nat", "bool": "Bool", "bytes": "List UInt8", "page": "Page", "unit": "Unit"}
 
 
 def lname(rust):
@@ -95,7 +95,7 @@ class CT:
             raise TranslateError("core: unsupported field access .%s" % name)
         if k == "cast":
             p, t, ty = self.expr(e[1], env)
-            to = {"usize": "nat", "u32": "nat", "u64": "nat", "u8": "u8", "u16": "u16"}.get(e[2])
+            to = {"usize": "nat", "u32": "u32", "u64": "nat", "u8": "u8", "u16": "u16"}.get(e[2])
             if to is None:
                 raise TranslateError("core: unsupported cast to %s" % e[2])
             return p, self.cast(t, ty, to), to
@@ -151,17 +151,24 @@ class CT:
         if to == "nat":
             if ty in ("u8", "u16"):
                 return "%s.toNat" % t
+            if ty in ("lit", "u32"):   # u32 → usize widens (64-bit usize): the same number
+                return t
+        if to == "u32":
+            if ty in ("u8", "u16"):
+                return "%s.toNat" % t
             if ty == "lit":
                 return t
-        if to == "u8":
             if ty == "nat":
+                raise TranslateError("core: `as u32` of a usize value (truncation is not modelled)")
+        if to == "u8":
+            if ty in ("nat", "u32"):
                 return "(UInt8.ofNat %s)" % t
             if ty == "u16":
                 return "%s.toUInt8" % t
             if ty == "lit":
                 return "(%s : UInt8)" % t
         if to == "u16":
-            if ty == "nat":
+            if ty in ("nat", "u32"):
                 return "(UInt16.ofNat %s)" % t
             if ty == "u8":
                 return "%s.toUInt16" % t
@@ -174,7 +181,7 @@ class CT:
         if ty == to or to is None:
             return t
         if ty == "lit":
-            return {"u8": "(%s : UInt8)", "u16": "(%s : UInt16)", "nat": "%s"}[to] % t
+            return {"u8": "(%s : UInt8)", "u16": "(%s : UInt16)", "nat": "%s", "u32": "%s"}[to] % t
         raise TranslateError("core: a %s where a %s is needed" % (ty, to))
 
     def binop(self, e, env, want):
@@ -206,7 +213,11 @@ class CT:
             sym = {"==": "=", "!=": "≠", "<": "<", ">": ">", "<=": "≤", ">=": "≥"}[op]
             return pl + pr, "(%s %s %s)" % (l, sym, r), "prop"
         if op in ("+", "*", "/", "%"):
+            if ty == "u32" and op in ("/", "%"):
+                return pl + pr, "(%s %s %s)" % (l, op, r), "u32"   # cannot overflow: the same number in any width
             if ty != "nat":
+                # `usize` is modelled as Nat (64-bit: the index arithmetic of these files cannot reach 2^64);
+                # narrower arithmetic can overflow well within reach (a page of 4 GiB) and is not translated
                 raise TranslateError("core: %s on a %s (overflow semantics not modelled)" % (op, ty))
             return pl + pr, "(%s %s %s)" % (l, op, r), "nat"
         if op == "-":
@@ -279,7 +290,9 @@ class CT:
 
     def rust_ty(self, t):
         t = t.replace(" ", "")
-        if t in ("u32", "usize"):
+        if t == "u32":
+            return "u32"
+        if t == "usize":
             return "nat"
         if t in ("u8", "PageId", "MsgType"):
             return "u8"
@@ -294,7 +307,7 @@ class CT:
     def ret_ty(self, t):
         """→ (type tag, pure?)"""
         t = t.replace(" ", "")
-        table = {"usize": ("nat", True), "u32": ("nat", True), "u8": ("u8", True), "bool": ("bool", False), "": ("unit", False),
+        table = {"usize": ("nat", True), "u32": ("u32", True), "u8": ("u8", True), "bool": ("bool", False), "": ("unit", False),
                  "Self": (self.selfty, False), "PageId": ("u8", False), "(usize,u8)": ("natpair", False), "&[u8]": ("bytes", True),
                  "Vec<u8>": ("bytes", False), "Result<Self,PageError>": ("pageresult", False),
                  "Result<Self,FrameError>": ("dataresult", False)}
@@ -323,6 +336,7 @@ class CT:
             e, semi = s[1], s[2]
             if e[0] == "macro":
                 if e[1] in LOG_MACROS:
+                    check_log_macro(e[1], e[2], "core")
                     return self.tr(rest, env, fin)
                 if e[1] in ("assert_eq", "assert", "debug_assert", "debug_assert_eq"):
                     text = "".join(x[1] for x in e[2])
@@ -507,7 +521,7 @@ def gen_page(repo):
         raise TranslateError("page.rs: const HEADER_LEN not found")
     header_len = int(m.group(1).replace("_", ""), 0)
     methods, _ = parse_methods(src, r"impl<'a>\s*Page<'a>\s*\{")
-    fields = {"width": ("%s.w", "nat"), "height": ("%s.h", "nat"), "bytes": ("%s.bytes", "bytes")}
+    fields = {"width": ("%s.w", "u32"), "height": ("%s.h", "u32"), "bytes": ("%s.bytes", "bytes")}
     ct = CT(methods, "page", fields, {"HEADER_LEN": (str(header_len), "nat")}, {}, "")
     out = ["def headerLen : Nat := %d\n" % header_len]
 
@@ -517,13 +531,13 @@ def gen_page(repo):
         text = ct.tr(body, env, lambda e2, v, ty: v)
         out.append("/-- `Page::%s`. -/\ndef %s %s: Nat :=\n%s\n" % (name, lname(name), "".join("(%s : Nat) " % p for p, _ in params), indent(text)))
 
-    pure_fn("bytes_per_column", [("height", "nat")])
-    pure_fn("data_bytes", [("width", "nat"), ("height", "nat")])
-    pure_fn("total_bytes", [("width", "nat"), ("height", "nat")])
+    pure_fn("bytes_per_column", [("height", "u32")])
+    pure_fn("data_bytes", [("width", "u32"), ("height", "u32")])
+    pure_fn("total_bytes", [("width", "u32"), ("height", "u32")])
 
     # byte_bit_indices
     ps, ret, body = methods["byte_bit_indices"]
-    env = Env({"self": ("self", "page"), "x": ("x", "nat"), "y": ("y", "nat")})
+    env = Env({"self": ("self", "page"), "x": ("x", "u32"), "y": ("y", "u32")})
     text = ct.tr(body, env, lambda e2, v, ty: ".ok %s" % v)
     out.append("/-- `Page::byte_bit_indices`. -/\ndef byteBitIndices (self : Page) (x y : Nat) : Except Panic (Nat × Nat) :=\n%s\n" % indent(text))
 
@@ -535,7 +549,7 @@ def gen_page(repo):
     tail_lit = squash(lit.group(1))[-len("Page{width,height,bytes:bytes.into(),}"):] if lit else ""
     if tail_lit != "Page{width,height,bytes:bytes.into(),}":
         raise TranslateError("page.rs: Page::new builds the page from something other than (width, height, bytes)")
-    env = Env({"id": ("id", "u8"), "width": ("width", "nat"), "height": ("height", "nat")})
+    env = Env({"id": ("id", "u8"), "width": ("width", "u32"), "height": ("height", "u32")})
     text = ct.tr(body[:-1], env, lambda e2, v, ty: "⟨width, height, %s⟩" % e2.vals["bytes"][0])
     out.append("/-- `Page::new`. -/\ndef new (id : UInt8) (width height : Nat) : Page :=\n%s\n" % indent(text))
 
@@ -554,11 +568,11 @@ def gen_page(repo):
 
     # get_pixel
     ps, ret, body = methods["get_pixel"]
-    env = Env({"self": ("self", "page"), "x": ("x", "nat"), "y": ("y", "nat")})
+    env = Env({"self": ("self", "page"), "x": ("x", "u32"), "y": ("y", "u32")})
     text = translate_pixel(ct, body, env, getter=True)
     out.append("/-- `Page::get_pixel`. -/\ndef getPixel (self : Page) (x y : Nat) : Except Panic Bool :=\n%s\n" % indent(text))
     ps, ret, body = methods["set_pixel"]
-    env = Env({"self": ("self", "page"), "x": ("x", "nat"), "y": ("y", "nat"), "value": ("value", "bool")})
+    env = Env({"self": ("self", "page"), "x": ("x", "u32"), "y": ("y", "u32"), "value": ("value", "bool")})
     text = translate_pixel(ct, body, env, getter=False)
     out.append("/-- `Page::set_pixel`. -/\ndef setPixel (self : Page) (x y : Nat) (value : Bool) : Except Panic Page :=\n%s\n" % indent(text))
     ps, ret, body = methods["set_all_pixels"]
